@@ -628,14 +628,15 @@ void carquet_column_release_retired_pages(carquet_column_reader_t* reader) {
  * it is dereferenced.
  */
 
-/* Bytes available for a page header at `offset` (at most 256), or 0 if the
- * offset does not lie inside the file. */
+/* Bytes available for a page header at `offset`, or 0 if the offset does not
+ * lie inside the file. A page header has no maximum size (its statistics hold
+ * values of any length), so the parser is given everything up to the end of the
+ * file; it reads only the header. */
 static size_t mmap_header_window(const carquet_reader_t* file_reader, int64_t offset) {
     if (offset < 0 || (uint64_t)offset >= (uint64_t)file_reader->file_size) {
         return 0;
     }
-    size_t avail = file_reader->file_size - (size_t)offset;
-    return avail < 256 ? avail : 256;
+    return file_reader->file_size - (size_t)offset;
 }
 
 /* True if the page body [offset + header_size, + compressed_size) lies inside the file. */
@@ -783,6 +784,62 @@ static size_t file_read_at(FILE* file, int64_t offset, void* buf, size_t size) {
 }
 
 /* ============================================================================
+ * Helper: Read and parse a page header (fread path)
+ * ============================================================================
+ *
+ * A page header has no maximum size: its statistics hold min/max values of any
+ * length. Start with a 256-byte window and enlarge it while the header does not
+ * parse and the window was filled completely (so the file has more to give).
+ * The window lives in reader->page_buffer: parsed statistics point into it.
+ */
+
+#define CARQUET_PAGE_HEADER_WINDOW_MAX ((size_t)1 << 24)
+
+static carquet_status_t read_page_header_fread(
+    carquet_column_reader_t* reader,
+    int64_t offset,
+    parquet_page_header_t* page_header,
+    size_t* header_size,
+    carquet_error_t* error) {
+
+    FILE* file = reader->file_reader->file;
+    size_t window = 256;
+
+    for (;;) {
+        if (reader->page_buffer_capacity < window) {
+            uint8_t* grown = realloc(reader->page_buffer, window);
+            if (!grown) {
+                CARQUET_SET_ERROR(error, CARQUET_ERROR_OUT_OF_MEMORY, "Failed to allocate page header buffer");
+                return CARQUET_ERROR_OUT_OF_MEMORY;
+            }
+            reader->page_buffer = grown;
+            reader->page_buffer_capacity = window;
+        }
+
+        size_t header_read = file_read_at(file, offset, reader->page_buffer, window);
+        if (header_read == (size_t)-1) {
+            CARQUET_SET_ERROR(error, CARQUET_ERROR_FILE_SEEK, "Failed to seek to page header");
+            return CARQUET_ERROR_FILE_SEEK;
+        }
+        if (header_read < 8) {
+            CARQUET_SET_ERROR(error, CARQUET_ERROR_FILE_READ, "Failed to read page header");
+            return CARQUET_ERROR_FILE_READ;
+        }
+        reader->page_buffer_size = header_read;
+
+        carquet_status_t status = parquet_parse_page_header(
+            reader->page_buffer, header_read, page_header, header_size, error);
+        if (status == CARQUET_OK) {
+            return CARQUET_OK;
+        }
+        if (header_read < window || window >= CARQUET_PAGE_HEADER_WINDOW_MAX) {
+            return status;
+        }
+        window *= 2;
+    }
+}
+
+/* ============================================================================
  * Helper: Load dictionary page (fread path)
  * ============================================================================
  */
@@ -797,22 +854,10 @@ static carquet_status_t load_dictionary_page_fread(
     const parquet_column_metadata_t* col_meta = reader->col_meta;
 
     /* Seek to dictionary page and read page header */
-    uint8_t header_buf[256];
-    size_t header_read = file_read_at(file, dict_offset,
-                                      header_buf, sizeof(header_buf));
-    if (header_read == (size_t)-1) {
-        CARQUET_SET_ERROR(error, CARQUET_ERROR_FILE_SEEK, "Failed to seek to dictionary");
-        return CARQUET_ERROR_FILE_SEEK;
-    }
-    if (header_read < 8) {
-        CARQUET_SET_ERROR(error, CARQUET_ERROR_FILE_READ, "Failed to read dictionary header");
-        return CARQUET_ERROR_FILE_READ;
-    }
-
     parquet_page_header_t page_header;
     size_t header_size;
-    carquet_status_t status = parquet_parse_page_header(
-        header_buf, header_read, &page_header, &header_size, error);
+    carquet_status_t status = read_page_header_fread(
+        reader, dict_offset, &page_header, &header_size, error);
     if (status != CARQUET_OK) {
         return status;
     }
@@ -1195,22 +1240,10 @@ static carquet_status_t load_next_page_fread(
 
     /* Seek to data page and read page header */
     int64_t data_offset = reader->data_start_offset;
-    uint8_t header_buf[256];
-    size_t header_read = file_read_at(file, data_offset + reader->current_page,
-                                      header_buf, sizeof(header_buf));
-    if (header_read == (size_t)-1) {
-        CARQUET_SET_ERROR(error, CARQUET_ERROR_FILE_SEEK, "Failed to seek to data page");
-        return CARQUET_ERROR_FILE_SEEK;
-    }
-    if (header_read < 8) {
-        CARQUET_SET_ERROR(error, CARQUET_ERROR_FILE_READ, "Failed to read page header");
-        return CARQUET_ERROR_FILE_READ;
-    }
-
     parquet_page_header_t page_header;
     size_t header_size;
-    carquet_status_t status = parquet_parse_page_header(
-        header_buf, header_read, &page_header, &header_size, error);
+    carquet_status_t status = read_page_header_fread(
+        reader, data_offset + reader->current_page, &page_header, &header_size, error);
     if (status != CARQUET_OK) {
         return status;
     }
@@ -1225,17 +1258,8 @@ static carquet_status_t load_next_page_fread(
             return status;
         }
         data_offset = reader->data_start_offset;
-        header_read = file_read_at(file, data_offset, header_buf, sizeof(header_buf));
-        if (header_read == (size_t)-1) {
-            CARQUET_SET_ERROR(error, CARQUET_ERROR_FILE_SEEK, "Failed to seek to data page");
-            return CARQUET_ERROR_FILE_SEEK;
-        }
-        if (header_read < 8) {
-            CARQUET_SET_ERROR(error, CARQUET_ERROR_FILE_READ, "Failed to read page header");
-            return CARQUET_ERROR_FILE_READ;
-        }
-        status = parquet_parse_page_header(
-            header_buf, header_read, &page_header, &header_size, error);
+        status = read_page_header_fread(
+            reader, data_offset, &page_header, &header_size, error);
         if (status != CARQUET_OK) {
             return status;
         }
